@@ -26,7 +26,12 @@ var lintNameRE = regexp.MustCompile(`^[ewn]_[^\sA-Z]+$`)
 func knownSource(s lint.LintSource) bool {
 	b, _ := json.Marshal(string(s))
 	var x lint.LintSource
-	return x.UnmarshalJSON(b) == nil && x == s && s != lint.UnknownLintSource
+	if !(x.UnmarshalJSON(b) == nil && x == s && s != lint.UnknownLintSource) {
+		return false
+	}
+	// … and known to the source-list parser, which is how a source is named to the library and the CLI
+	var sl lint.SourceList
+	return sl.FromString(string(s)) == nil && len(sl) == 1 && sl[0] == s
 }
 
 func checkC12(ctx *core.Ctx, rep *core.Report) {
